@@ -517,6 +517,13 @@ pub const NUMBER_CASES: [(&str, &str); 40] = [
     ("number(/r)", "7"), ("/r/@a + 1", "13"), ("/r/@b + 0", "NaN"), ("/r/@c + 0", "NaN"), ("/r/@d + 0", "NaN"), ("' 12 ' = 12", "true"), ("/r/@a = 12", "true"),
 ];
 
+// XPath 1.0 2.4: a predicate whose value is a number is true exactly when the number equals the proximity position
+pub const PREDICATE_CASES: [(&str, &str); 16] = [
+    ("name(/r/*[1])", "a"), ("name(/r/*[2])", "c"), ("name(/r/*[3.0])", "i"), ("count(/r/*[1.5])", "0"), ("count(/r/*[2.9])", "0"), ("count(/r/*[0.5])", "0"),
+    ("count(/r/*[0])", "0"), ("count(/r/*[-1])", "0"), ("count(/r/*[4])", "0"), ("count(/r/*[0 div 0])", "0"), ("count(/r/*[1 div 0])", "0"),
+    ("count(/r/*[0.5 + 0.5])", "1"), ("count(/r/*[position() = 1.5])", "0"), ("count(/r/*[last()])", "1"), ("count(/r/*['x'])", "3"), ("count(/r/*[''])", "0"),
+];
+
 // the thirteen axes on one document; expected: string value of the expression (names joined by the expression itself)
 pub const AXIS_DOC: &str = "<r><a><b><e/></b><f/></a><c><d/><g><h/></g></c><i/></r>";
 pub const AXIS_CASES: [(&str, &str); 30] = [
@@ -621,7 +628,7 @@ pub fn xpath_query_op(kind: &str, a: &Args) -> Option<Outcome> {
             Some(Outcome { observed, expected: format!("Number({}.0 bits:{:#018x})", want, want.parse::<f64>().unwrap().to_bits()), note: d.to_string() })
         }
         // C10: name tests and name functions against expanded names; the caller binds q -> "u" and w -> "w"
-        "names" | "axes" | "numbers" => {
+        "names" | "axes" | "numbers" | "predicates" => {
             let want = a.get("expected").cloned().unwrap_or_default();
             let observed = guard(|| {
                 let mut c = Context::default();
@@ -1024,6 +1031,11 @@ pub fn xpath_grid(rest: &[&str]) -> Vec<Args> {
         ["query", "numbers"] => {
             for (q, e) in NUMBER_CASES {
                 out.push(mk(&[("doc", "<r a=' 12 ' b='1e3' c='+1' d='inf'> 7 </r>"), ("query", q), ("expected", e)]));
+            }
+        }
+        ["query", "predicates"] => {
+            for (q, e) in PREDICATE_CASES {
+                out.push(mk(&[("doc", AXIS_DOC), ("query", q), ("expected", e)]));
             }
         }
         ["query", "axes"] => {
